@@ -39,7 +39,7 @@ def run(env: Env) -> Outcome:
     suite.live_runs(env, out, env.budget(300, 6000), [monitors.mon_c06], gen_kwargs={"family": "retry"})
     # collecting steps (2..3 workers) with non-constant wait strategies whose retried invocation is re-run on a stale
     # snapshot between two of its failures: retries are numbered by failures, a collect re-run is not one
-    trs = suite.live_runs(env, out, env.budget(150, 3000), [monitors.mon_c06], gen_kwargs={"family": "collect_retry"})
+    trs = suite.live_runs(env, out, env.budget(120, 2000), [monitors.mon_c06], gen_kwargs={"family": "collect_retry"})
     for tr in trs:
         for shape in monitors.c06_rerun_shapes(tr):
             out.count("live:c06:" + shape)
